@@ -437,11 +437,10 @@ const c16Script = `#!/bin/sh
 stty raw -echo
 printf 'RDY'
 cat "$1"
-if [ -n "$3" ]; then
-  head -c "$3" | tee "$2"
-else
-  exec tee "$2"
-fi
+case "$3" in
+  ''|*[!0-9]*) exec tee "$2" ;;   # (the netconf flavour of the transport appends "-s netconf")
+  *) head -c "$3" | tee "$2" ;;
+esac
 `
 
 var c16ScriptOnce sync.Once
